@@ -10,7 +10,7 @@ import RsMatterVerif.Model.Codec.DerRead
 * `Length::decode` inverts the minimal length encoding and accepts nothing else (canonicity);
 * `cert/der_utils.rs`: `copy_integer_to_fixed` / `ecdsa_der_to_raw` are safe and invert the model encoder.
 -/
-namespace Codec.Der
+namespace Codec.DerRd
 
 /-- the model's answer is a value or a proper error: neither "the Rust code panics" nor "the loop does not end" -/
 def Safe {α : Type} (r : Except E α) : Prop :=
@@ -1438,4 +1438,4 @@ theorem ecdsaDerToRaw_too_long {n : Nat} {integer : List Nat} (h : (stripZeros i
     copyIntegerToFixed n integer = .error .invalid := by
   rw [copyIntegerToFixed_eq, if_pos h]
 
-end Codec.Der
+end Codec.DerRd
